@@ -178,18 +178,21 @@ func syntheticSubjects() []subject {
 	}
 	add("bool", func() *characteristic.Characteristic {
 		c := characteristic.NewBool(synthType)
+		c.Format = characteristic.FormatBool // (set here like every catalog constructor does)
 		c.Perms = characteristic.PermsAll()
 		c.Value = false
 		return c.Characteristic
 	})
 	add("string", func() *characteristic.Characteristic {
 		c := characteristic.NewString(synthType)
+		c.Format = characteristic.FormatString
 		c.Perms = characteristic.PermsAll()
 		c.Value = "initial"
 		return c.Characteristic
 	})
 	add("tlv8", func() *characteristic.Characteristic {
 		c := characteristic.NewBytes(synthType)
+		c.Format = characteristic.FormatTLV8
 		c.Perms = characteristic.PermsAll()
 		c.Value = "AQID"
 		return c.Characteristic
